@@ -20,9 +20,9 @@ Agrees(o, e) ==
     /\ VarEq(o.x, e.x) /\ VarEq(o.y, e.y)        \* exactly the named variables updated, nothing after a fault
 
 Verdict(r) == IF r.undef THEN "ok"
-              ELSE IF Agrees(r.omin, r.exp) /\ Agrees(r.ofull, r.exp) /\ Agrees(r.otight, r.exp) THEN "ok"
+              ELSE IF Agrees(r.omin, r.exp) /\ Agrees(r.ofull, r.exp) /\ Agrees(r.otight, r.exp) /\ Agrees(r.oxten, r.exp) THEN "ok"
               ELSE IF /\ (Agrees(r.omin, r.exp) \/ Agrees(r.omin, r.eager)) /\ (Agrees(r.ofull, r.exp) \/ Agrees(r.ofull, r.eager))
-                      /\ (Agrees(r.otight, r.exp) \/ Agrees(r.otight, r.eager)) THEN "eager"
+                      /\ (Agrees(r.otight, r.exp) \/ Agrees(r.otight, r.eager)) /\ (Agrees(r.oxten, r.exp) \/ Agrees(r.oxten, r.eager)) THEN "eager"
               ELSE "bad"
 
 Chk == LET v == Verdict(Recs[k]) IN v = "ok" \/ PrintT(<<IF v = "eager" THEN "EAGER" ELSE "MISMATCH", k>>)
